@@ -71,6 +71,9 @@ def protocol_battery():
     for hdr_, row_ in (("A D_out Y", "1 7 X"), ("D_out", "7"), ("A E_out D", "1 X 3"), ("A D D_out E E_out", "0 1 X Z 2"), ("Y", "X")):
         b.append(Scenario("%s\n%s\n%s\n" % (hdr_, row_, row_), Sbd, default_answer=[0, 0, 0],
                           note="bidirectional signals named only by their _out column (or not at all) are still driven: header %s" % hdr_))
+    # sixth round: identical consecutive clocked rows through the PROVIDED write_input (no override): every phase is written
+    b.append(Scenario("CLK A Y\nC 1 0\nC 1 0\nrepeat(2) C 1 0\n", S, default_answer=[0, 0], override_write=False,
+                      expect={"call_kinds": ["read"] * 13}, note="identical clocked rows, provided write_input: three calls per row"))
     # fourth round: blocks that produce no row in the middle of a program - the end is reported once, after the last row
     for mid, what in (("loop(i,0)\n1 1 X\nend loop\n", "zero-trip loop"), ("while(0)\n1 1 X\nend while\n", "zero-trip while"),
                       ("repeat(0) 1 1 X\n", "zero-trip repeat"), ("loop(i,2)\nloop(j,0)\n1 1 X\nend loop\nend loop\n", "nested zero-trip loop"),
@@ -298,6 +301,13 @@ def fault_battery():
                           override_write=False, stop_on_err=False, note="no outputs at construction, outputs from call %d on (default write_input)" % k))
         b.append(Scenario(prog, S, layout=[], default_answer=[], layout_at=dict((j, ["Y"]) for j in range(k, 9)), answers=dict((j, [1]) for j in range(k, 9)),
                           stop_on_err=False, note="no outputs at construction, one output from call %d on" % k))
+    # sixth round.  (f) the same TestCase value was run before by a driver with another layout: this run is judged against
+    # its own first answer
+    for pre in ([["Q", "Y"]], [["Y"]], [["?0", "Y", "Q"]]):
+        for k in (1, 4):
+            b.append(Scenario(prog, S, layout=["Y", "Q"], default_answer=[1, 2], pre_layouts=pre, layout_at={k: pre[0]}, stop_on_err=False,
+                              note="earlier run with layout %s; this run deviates to that layout at call %d" % (pre[0], k)))
+        b.append(Scenario(prog, S, layout=["Y", "Q"], default_answer=[1, 2], pre_layouts=pre, note="earlier run with layout %s, this run consistent" % pre[0]))
     # (c) tests without any output-capable signal: the constructor still makes its call, faults surface where they happen
     Sin = [("in", "A", 1, 0), ("in", "B", 4, 3)]
     for k in (0, 1, 2):
@@ -385,6 +395,11 @@ def reads_battery():
                       expect={"items": ["row", "err"]}, note="reading Z is an error item"))
     b.append(Scenario("A Y\n1 X\n(Y) X\n", S, answers={0: [1, 0], 1: ["X", 0]}, default_answer=[0, 0],
                       expect={"items": ["row", "err"]}, note="reading X is an error item"))
+    # sixth round: the test case was run before by a driver that supplies everything / another layout
+    b.append(Scenario("A Y\n(Y) X\n", S, layout=["DONE"], default_answer=[0], pre_layouts=[["Y", "DONE"]],
+                      expect={"new": "err", "calls": 1}, note="read output not supplied by THIS driver (an earlier run had it): constructor fails"))
+    b.append(Scenario("A Y\n(Y) X\n(Y+1) X\n", S, layout=["DONE", "Y"], default_answer=[0, 5], pre_layouts=[["Y", "DONE"], ["Y"]],
+                      answers={1: [0, 6]}, expect={"row_inputs": [["5", "0"], ["7", "0"]]}, note="reads follow this run's layout, not an earlier run's"))
     for expr in ("(0 & Y)", "(0 * Y)", "(Y & 0)", "(Y * 0)", "(1 | Y)", "((1 = 9) & Y)"):
         for bad in ("Z", "X"):
             b.append(Scenario("A Y\n1 X\n%s X\n" % expr, S, answers={0: [1, 0], 1: [bad, 0]}, default_answer=[0, 0],
@@ -1230,6 +1245,23 @@ def dig_battery():
     t5 = ("cr-blank-first", "\r\n\r\nA Y\r\n1 1\r\n")
     b.append(Scenario(dig_xml(pins, [t5]), [], mode="dig", load="0", default_answer=[0, 0],
                       expect={"dig": "ok", "load": "ok", "tests": [t5], "lines": [4]}, note="CRLF blank lines before the header of a document test"))
+    # sixth round: a document test that does not parse - the error's labels lie inside the source attached to it
+    for eol in ("\r\n", "\n"):
+        for body, what in (("A Y%s1 1%sloop(i,2)%s1 1%s" % ((eol,) * 4), "loop left open at the end"),
+                           ("A Y%s1 1%s1 $" % (eol, eol), "bad token at the very end"),
+                           ("A Y%s1 1%s1 1%s1 1%sprogram x%s" % ((eol,) * 5), "unsupported statement on the last line"),
+                           ("A Y%s\u00e4\u00f6 1%s1 1%s1%s" % ((eol,) * 4), "short last row after multi-byte text")):
+            b.append(Scenario(dig_xml(pins, [t1, ("bad", body)]), [], mode="dig", load="1", default_answer=[0, 0],
+                              expect={"dig": "ok", "load": "err", "labels_ok": True}, note="%s, line ends %r" % (what, eol)))
+    # a test of the same name and length loaded earlier in the process does not answer for this one
+    good = ("same", "A Y\nloop(i,2)\n1 1\nend loop\n")
+    bad_ = ("same", "A Y\nloop(i,2)\n1 1\n1 1     \n")
+    assert len(good[1]) == len(bad_[1])
+    b.append(Scenario(dig_xml(pins, [bad_]), [], mode="dig", load="0", default_answer=[0, 0], pre_digs=[(dig_xml(pins, [good]), "0")],
+                      expect={"dig": "ok", "load": "err"}, note="a well-formed test of the same name and length was loaded before: this one is still rejected"))
+    b.append(Scenario(dig_xml(pins, [bad_]), [], mode="dig", load="name:" + "same".encode().hex(), default_answer=[0, 0],
+                      pre_digs=[(dig_xml(pins, [good]), "name:" + "same".encode().hex())],
+                      expect={"dig": "ok", "load": "err"}, note="the same, loaded by name"))
     # fifth round: labels are compared exactly (blanks, case and line breaks count)
     ta, tb, tc = ("add ", "A Y\n1 1\n"), ("add", "A Y\n2 2\n"), (" add", "A Y\n3 3\n")
     b.append(Scenario(dig_xml(pins, [ta, tb, tc]), [], mode="dig", load="name:" + "add".encode().hex(), default_answer=[0, 0],
@@ -1279,10 +1311,17 @@ def dig_judge_one(o, sc):
         lst = o.stage.get("LOAD", ("missing", ""))[0]
         if lst != e["load"]:
             return "load_test is %s, expected %s (%s)" % (lst, e["load"], sc.note)
+    for l in o.lines:
+        if l.startswith("LOAD err") and "labels_ok=0" in l:
+            return "a location of the load error lies outside the source text attached to it (%s)" % sc.note
     return literal_judge_one(o, sc)
 
 
 dig_judge = no_panic_judge(dig_judge_one)
+
+
+def dig_or_malformed_judge(obs, sc):
+    return dig_judge(obs, sc) if sc.mode == "dig" else malformed_judge(obs, sc)
 
 
 # ------------------------------------------------------------------ C20 layout (relational: variant vs base)
